@@ -66,7 +66,7 @@ CLAIMED = {
   "Tag order, optional tags and resolution values are not judged. tiff-json is always given metadata (it rejects an empty one at set, which is input validation)."),
  "C16": ("fault_enumeration", "DESIGN.md §4 C16",
   "fault enumeration on the simulated file layer: a fault-free twin run of each generated life-cycle history counts the create/write/lock/close calls, then the history is re-executed once per call ordinal with the fault at that ordinal (EINTR, EAGAIN, three zero-length writes, persistent EIO/ENOSPC, one-off EIO, open EACCES/ENOENT/EMFILE, flock failure, close EIO); the file layer tracks descriptor ownership",
-  "For every generated history (storage kind x shape: open-close, open-set-close, start/stop cycles, operations after a failure, close while running) every ordinal of the chosen fault family's call is swept. Oracles: no crash, no unbounded recursion (stack overflow is classified), no hang; after a write failure the device is not Running when the failing append returns; a failed create is reported by start; only descriptors the device opened are written or closed, each closed once, none left open after close, 0-2 never closed.",
+  "For every generated history (storage kind x shape: open-close, open-set-close, start/stop cycles, operations after a failure, close while running, a second start while running, set while running, a second device taking over released descriptor numbers) every ordinal of the chosen fault family's call is swept. Oracles: no crash, no unbounded recursion (stack overflow is classified), no hang; after a write failure the device is not Running when the failing append returns; a failed create is reported by start; only descriptors the device opened are written or closed, each closed once, none left open after close, 0-2 never closed.",
   "One fault family per history (all families covered across histories); single-device histories (stale-number collisions between two streams are covered by the ownership tracking, not by a second live stream)."),
  "C12": ("exploration", "DESIGN.md §4 C12",
   "seeded input generation riding on the simulated loader: generated library presence, broken-library faults (no entry point, init returns NULL, describe fails) and device tables behind the dl seam; name patterns from a constructive grammar judged by an independent backtracking matcher; arbitrary byte patterns judged for 'error status, never a crash'",
